@@ -26,7 +26,7 @@ func vMACFor(key encryptedKey, passwd string) (mac string) {
 	}
 	n := key.Crypto.KDFParams.DKLen
 	c := key.Crypto.KDFParams.C
-	if n < 32 || n > 1<<20 || c < 0 || c > 1<<12 {
+	if n < 32 || n > 1<<20 || c > 1<<12 {
 		return raw
 	}
 	dk := pbkdf2.Key([]byte(passwd), salt, c, n, pbkdf2PRF)
